@@ -1,8 +1,8 @@
 #!/bin/bash
 # usage: seed_batch.sh [seed ids...]   -- runs every seeded change of /verif/seeded against the check of its own property
 # in a scratch clone of /repo (committed state) with a scratch verif dir, so /repo and /verif/evidence stay untouched.
-S=/tmp/seedrepo; V=/tmp/seedverif
-rm -rf $S $V; git clone -q /repo $S || exit 2
+S=$(mktemp -d /tmp/seedrepo.XXXXXX); V=$(mktemp -d /tmp/seedverif.XXXXXX)
+rmdir $S; git clone -q /repo $S || exit 2
 mkdir -p $V; cp /verif/known_findings.json $V/; ln -s /verif/tools $V/tools; ln -s /verif/replay $V/replay
 ids="$@"; [ -z "$ids" ] && ids=$(ls /verif/seeded)
 for id in $ids; do
